@@ -179,9 +179,9 @@ Definition run14 (c : case14) : res (node * option node * obs14) :=
                 (fun x => do x' <- set_scalar (Some v) x; Ok (x', x')) d;
       Ok r)
   | OFieldSpec fs ck ct sv =>
-      plain (do d' <- fs_apply ck ct (sv_fn nonstr sv) fs d; Ok (d', None))
+      plain (do d' <- fs_apply_raw ck ct (sv_fn nonstr sv) fs d; Ok (d', None))
   | OFsSlice l ck ct sv =>
-      plain (do d' <- fsslice_apply ck ct (sv_fn nonstr sv) l d; Ok (d', None))
+      plain (do d' <- fsslice_apply_raw ck ct (sv_fn nonstr sv) l d; Ok (d', None))
   | OElemMatch keys values any create => piped (elem_matcher nonstr keys values any create)
   | OElemSet keys values element => piped (elem_setter nonstr keys values element)
   | OElemAppend els => piped (elem_append els)
